@@ -365,6 +365,9 @@ def gen_table(src, max_inputs=4, max_outputs=3, min_rules=0, max_rules=8, max_an
             outs = list(rules[src.int(0, len(rules) - 1)]["out"])
         else:
             outs = [src.choice(opools[j]) for j in range(no)]
+        if src.bool(0.1):
+            # the same number spelled differently (7 / 7.0 / 7.00): equal as a value for ANY, priorities and aggregators
+            outs = [["n", o[1] + (".0" if "." not in o[1] else "0")] if o[0] == "n" else o for o in outs]
         rules.append({"in": ins, "out": outs, "ann": [gen_annotation_text(src) for _ in range(na)]})
     T = {"hp": hp,
          "name": src.choice(TITLES) if src.bool(0.5) else None,
